@@ -393,7 +393,7 @@ def readable(stream, fields):
     return out
 
 
-def judge(rep, cases, impl, model, known, classify_nontrivial=None, max_report=3):
+def judge(rep, cases, impl, model, known, classify_nontrivial=None, max_report=3, spec_mode=None):
     """apply the verdict rules of DESIGN 2.3 to in-process / process-level observations."""
     open_k = {k["class"]: k for k in known.get("open", []) if k["property"] == rep.prop}
     diverging = []
@@ -410,6 +410,17 @@ def judge(rep, cases, impl, model, known, classify_nontrivial=None, max_report=3
             diverging.append((c, o, ("MISSING", "-", "-", "-")))
             continue
         M, S, g, cls = m
+        if M.startswith("UNMODELLED"):
+            rep.count("unmodelled")
+            continue
+        if spec_mode == "nocrash":
+            # C05: the spec is "the stage returns": any outcome other than PANIC / HANG / CRASH meets it
+            crashed = o.startswith(("PANIC", "HANG", "CRASH", "NOT-RUN", "MISSING"))
+            S = "<returns>"
+            if not crashed and o == M:
+                S = o
+            g = "0" if cls != "-" else "1"
+            m = (M, S, g, cls)
         if g != "-":
             rep.count("guard:" + g)
         if classify_nontrivial:
@@ -429,6 +440,11 @@ def judge(rep, cases, impl, model, known, classify_nontrivial=None, max_report=3
             else:
                 spec_fail_agree.setdefault(cls, []).append((c, o, m))
     rep.divergences += len(diverging)
+    if diverging:
+        os.makedirs(WORK, exist_ok=True)
+        with open(os.path.join(WORK, "%s.divergences.txt" % rep.prop), "a") as f:
+            for c, o, m in diverging[:400]:
+                f.write("%s\t%s\n    impl  %s\n    model %s\n" % (c.stream, readable(c.stream, c.fields), o, m[0]))
 
     def replay_obj(kind, c, o, m, extra=None):
         d = {"property": rep.prop, "kind": kind, "stream": c.stream, "fields": list(c.fields),
